@@ -23,7 +23,10 @@ var inAlphabet = func() (t [256]bool) {
 }()
 
 // string paths: every place where gqlgen writes a Go string into the response.
+// The first three use gqlgen's own writer (writeQuotedString); the others delegate to encoding/json.
 var stringPaths = []string{"MarshalString", "MarshalID", "FieldSet.alias", "MarshalAny(string)", "MarshalMap(key,value)", "Omittable[string]"}
+
+const ownWriterPaths = 3
 
 func fieldSet(aliases []string, vals []graphql.Marshaler) *graphql.FieldSet {
 	fields := make([]graphql.CollectedField, len(aliases))
@@ -104,6 +107,10 @@ func checkStringSan(path string, s, san string) (sig, what string) {
 }
 
 func evalString(r *jobResult, s string, domain string) {
+	evalStringPaths(r, s, domain, stringPaths)
+}
+
+func evalStringPaths(r *jobResult, s string, domain string, paths []string) {
 	if !stringTrivial(s) {
 		r.nontriv("str:" + s)
 	}
@@ -111,7 +118,7 @@ func evalString(r *jobResult, s string, domain string) {
 	if san != string([]rune(s)) { // the reference must agree with Go's own rune decoding
 		common.Broken("reference sanitize(%q) = %q disagrees with Go's rune decoding %q", s, san, string([]rune(s)))
 	}
-	for _, p := range stringPaths {
+	for _, p := range paths {
 		r.evals++
 		if sig, what := checkStringSan(p, s, san); sig != "" {
 			r.fail(sig, what, map[string]any{"domain": "string", "path": p, "hex": hx(s), "from": domain})
@@ -216,7 +223,11 @@ func runCodePoints(thorough bool) {
 					continue
 				}
 			}
-			evalString(r, s, "codepoint")
+			if cx[0] == "" && cx[1] == "" {
+				evalString(r, s, "codepoint")
+			} else {
+				evalStringPaths(r, s, "codepoint", stringPaths[:ownWriterPaths])
+			}
 		}
 	}
 	var jobs []job
@@ -269,5 +280,5 @@ func runCodePoints(thorough bool) {
 			}
 		}
 	})
-	runDomain("code-points", fmt.Sprintf("every code point 0..0x10FFFF as raw UTF-8 bytes (surrogates ill-formed), 0x110000..0x1100FF, all overlong 2/3/4-byte forms, truncated forms; each in %d contexts x %d string paths", len(ctxs), len(stringPaths)), jobs)
+	runDomain("code-points", fmt.Sprintf("every code point 0..0x10FFFF as raw UTF-8 bytes (surrogates ill-formed), 0x110000..0x1100FF, all overlong 2/3/4-byte forms, truncated forms; each bare through %d string paths and in %d further contexts through the %d paths that use gqlgen's own string writer", len(stringPaths), len(ctxs)-1, ownWriterPaths), jobs)
 }
